@@ -418,7 +418,7 @@ func (h *w5Harness) runViewer(idx int, a *w5Actor) {
 			time.Sleep(time.Duration(op.Ms) * time.Millisecond)
 			continue
 		}
-		base := &w5Req{who: who, ip: a.IP, path: a.Path, user: a.User, pass: a.Pass, bearer: a.Bearer, cookies: map[string]string{}}
+		base := &w5Req{who: who, ip: a.IP, path: a.Path, user: a.User, pass: a.Pass, bearer: a.Bearer, cookies: map[string]string{}, xff: a.XFF}
 		r1 := *base
 		r1.file = "index.m3u8"
 		res := h.do(&r1)
